@@ -38,8 +38,8 @@ def applyAct (umask : Nat) (fs : FS) : Act → FS
       | some d => fs.set p (some ⟨d.content ++ c, d.mode⟩)
       | none => fs
   | .rename s d => match fs s with
-      | some c => (fs.set d (some c)).set s none
-      | none => fs
+      | some c => (fs.set s none).set d (some c)      -- the source name goes, the destination name gets the file
+      | none => fs                                     -- (in this order `rename x x` leaves the file alone, as POSIX says)
   | .unlink p => fs.set p none
   | .writeFail _ _ => fs
   | .close _ => fs
